@@ -49,6 +49,9 @@ fn precedence(new_first: bool, legacy_ty: u16) {
 #[kani::proof]
 #[kani::unwind(9)]
 #[kani::stub(alloc::fmt::format, crate::vklib::empty_format)]
+#[kani::stub(std::collections::HashMap::insert, crate::vklib::hm_insert)]
+#[kani::stub(crate::palette::ColorPalette::color, crate::vklib::side_color)]
+#[kani::stub(std::collections::HashMap::len, crate::vklib::hm_len)]
 #[kani::stub(std::hash::RandomState::new, crate::vklib::fixed_random_state)]
 fn c11_q_new_palette_then_legacy() {
     precedence(true, 0x0004);
@@ -56,6 +59,9 @@ fn c11_q_new_palette_then_legacy() {
 #[kani::proof]
 #[kani::unwind(9)]
 #[kani::stub(alloc::fmt::format, crate::vklib::empty_format)]
+#[kani::stub(std::collections::HashMap::insert, crate::vklib::hm_insert)]
+#[kani::stub(crate::palette::ColorPalette::color, crate::vklib::side_color)]
+#[kani::stub(std::collections::HashMap::len, crate::vklib::hm_len)]
 #[kani::stub(std::hash::RandomState::new, crate::vklib::fixed_random_state)]
 fn c11_q_legacy_then_new_palette() {
     precedence(false, 0x0004);
@@ -63,6 +69,9 @@ fn c11_q_legacy_then_new_palette() {
 #[kani::proof]
 #[kani::unwind(9)]
 #[kani::stub(alloc::fmt::format, crate::vklib::empty_format)]
+#[kani::stub(std::collections::HashMap::insert, crate::vklib::hm_insert)]
+#[kani::stub(crate::palette::ColorPalette::color, crate::vklib::side_color)]
+#[kani::stub(std::collections::HashMap::len, crate::vklib::hm_len)]
 #[kani::stub(std::hash::RandomState::new, crate::vklib::fixed_random_state)]
 fn c11_q_new_palette_then_legacy_0011() {
     precedence(true, 0x0011);
@@ -70,6 +79,9 @@ fn c11_q_new_palette_then_legacy_0011() {
 #[kani::proof]
 #[kani::unwind(9)]
 #[kani::stub(alloc::fmt::format, crate::vklib::empty_format)]
+#[kani::stub(std::collections::HashMap::insert, crate::vklib::hm_insert)]
+#[kani::stub(crate::palette::ColorPalette::color, crate::vklib::side_color)]
+#[kani::stub(std::collections::HashMap::len, crate::vklib::hm_len)]
 #[kani::stub(std::hash::RandomState::new, crate::vklib::fixed_random_state)]
 fn c11_t_legacy_0011_then_new_palette() {
     precedence(false, 0x0011);
